@@ -5,6 +5,8 @@ P=$1; shift
 cd /verif
 git -C /repo diff --quiet || { echo "/repo is dirty"; exit 2; }
 git -C /repo apply "$P" || exit 2
+EV=$(mktemp -d); cp evidence/*.json $EV/
 for c in "$@"; do ./check $c --tier ${TIER:-quick} 2>&1 | grep -E "VIOLATION|KNOWN-FINDING|TOOL-ERROR|^\[C" | cut -c1-300 | head -${LINES_MAX:-6}; done
 git -C /repo checkout -- .
+cp $EV/*.json evidence/; rm -rf $EV
 git -C /repo status --short
